@@ -20,7 +20,15 @@ META = dict(
                "and the history touches exactly its footprint (frame: no other record changes, none is leaked); generic in the element class (elem_law), proved for u64, i64, raw inline bytes, MapValueState and "
                "String (out-of-line records owned by the slots); C05_vec_reload; C05_vec_remove_from_storage; C05_vec_history_on_storage_{u64,i64,string} + C05_cwp_sound: the same statements hold of runs on the "
                "MODEL OF storage.rs (file-like and memory-like) from a fresh storage — nothing is assumed of the storage that C04 did not prove; non-vacuity examples by evaluation. "
-               "L2, map data / graph data / root record: see the theorems named C05_map_*, C05_graph_*, C05_root_* in coq/Props/C05.v (each says in its comment whether it is full or _partial). "
+               "L2, map data (FULL for the MapData interface): C05_map_history — EVERY history of set_state / set_key / set_value / set_len / resize / swap / shrink_to_fit / state / key / value / capacity / len of a "
+               "storage-backed map (DbMapData: the index record + the three vectors, pairwise disjoint), with reloads (DbMapData::from_storage) and maintenance at will, yields the observations of the plain table; "
+               "the reloaded interface stands for the same table, so the algorithms of multi_map.rs (written against that interface, no state of their own; OpenMap.v/C19 on ct_omap) compute the same; C05_map_reload; "
+               "C05_map_history_on_storage_{u64,string} on the model of storage.rs. "
+               "L2, graph data (FULL for the GraphData interface): C05_graph_history — EVERY history of set / get of from, to, from_meta, to_meta, grow, shrink_to_fit, capacity on GraphDataStorage (index record + four "
+               "DbVec<i64>), with reloads and maintenance, yields the observations of the four plain arrays (the arrays of Graph.v/C08); C05_graph_history_on_storage from GraphDataStorage::new. "
+               "L2, root record: C05_root_roundtrip_partial — DbStorageIndex stored at index 1 is what the next open reads (PARTIAL: the components are not assembled into one invariant of the whole database file). "
+               "Also pinned: C02_{vec,map,graph}_loads_partial (the loaders succeed and read back the content in every state satisfying the invariants, i.e. at every transaction boundary) and "
+               "C06_{vec,map,graph}_variants_agree (file-like and memory-like storage give the same observations for every collection history). "
                "NOT proved: the composition L2 -> L3 (that DbImpl's query results are a function of these collections' contents only; indexes = vector of multi-maps, key-value store = vector of vectors), and the "
                "u64-overflow behaviour of vec.rs' own arithmetic (modelled in N; bounded by the record size which the storage keeps below 2^64). "
                "Checked on every run: (a) collection correspondence — generated histories (vectors of u64 / i64 / String, DbMapData<u64,u64> and <String,u64>, GraphDataStorage; reload / optimize / reopen / backup+open "
